@@ -38,7 +38,7 @@ COMPONENTS = {"real": ["Arbiter.run/handle_term|int|quit/halt/stop/kill_workers/
               "stub": ["kernel", "stub worker run loop (master family)", "selector/executor/lock (gthread)", "clients"],
               "shim": ["gevent Pool/StreamServer/sleep/spawn/Timeout (simkit.gevent_shim)", "eventlet spawn/GreenPool/GreenSocket/sleep/Timeout/kill (simkit.eventlet_shim)"], "not_covered": ["ssl", "real gevent/eventlet hubs"]}
 
-PHASES = ["idle", "head_partial", "app_running", "resp_partial", "keepalive_idle"]
+PHASES = ["idle", "head_partial", "app_running", "resp_partial", "keepalive_idle", "ka_second_partial"]
 SIG = {"TERM": signal.SIGTERM, "QUIT": signal.SIGQUIT, "INT": signal.SIGINT}
 
 
@@ -64,6 +64,14 @@ def phase_client(rng, phase, gt):
         n, d = rng.choice([(3, 0.4), (4, 0.5), (2, 1.0)])
         ops += [["send", W_req("/slowbody/%d/%s" % (n, d))], ["recv", 40.0], ["await-eof", 15.0]]
         return ops, (t0 + 0.01, t0 + (n - 1) * d), (n - 1) * d
+    if phase == "ka_second_partial":
+        # a second request on a kept-alive connection whose head is partly received when the signal lands
+        r = W_req("/b")
+        cut = rng.randrange(1, len(r) - 1)
+        g = round(rng.uniform(0.05, 0.4), 2)
+        d = round(rng.uniform(0.2, 1.2), 2)
+        ops += [["send", W_req("/a")], ["recv", 30.0], ["wait", g], ["send", r[:cut]], ["wait", d], ["send", r[cut:]], ["recv", 30.0], ["await-eof", 15.0]]
+        return ops, (t0 + g + 0.02, t0 + g + d), 0.0
     # keepalive_idle
     ops += [["send", W_req("/a")], ["recv", 30.0], ["await-eof", 15.0]]
     return ops, (t0 + 0.01, t0 + 1.0), 0.0
@@ -88,6 +96,7 @@ def make_case(index, rng, tier):
             clients.append({"ops": ops2, "phase": ph2})
         at = round(rng.uniform(win[0], max(win[0] + 0.01, win[1])), 3)
         return {"family": fam, "kind": kind, "graceful_timeout": gt, "sig": sig, "clients": clients, "sig_at": at,
+                "wconn": rng.choice([1, 2, 10]) if kind in ("gevent", "eventlet") else 10,
                 "sig_tick": rng.randrange(1, 120) if rng.randrange(3) == 0 else None, "keepalive": rng.choice([1, 2, 3]),
                 "binds": rng.choice([1, 1, 2]),
                 "threads": rng.randrange(1, 3), "buggify": {"pyticks": rng.randrange(3) == 0, "short_recv": rng.randrange(3) == 0}}
@@ -117,16 +126,59 @@ def make_case(index, rng, tier):
         ops, win, app = phase_client(rng, ph, gt)
         clients.append({"ops": ops, "phase": ph})
     return {"family": fam, "kind": kind, "workers": rng.randrange(1, 3), "graceful_timeout": gt, "sig": sig, "clients": clients,
+            "wconn": rng.choice([1, 2, 10]) if kind in ("gevent", "eventlet") else 10,
             "sig_at": round(rng.uniform(0.3, 2.5), 2), "unix": False, "pidfile": True, "threads": rng.randrange(1, 3),
             "binds": rng.choice([1, 1, 2]), "keepalive": rng.choice([1, 2]), "buggify": {"pyticks": rng.randrange(3) == 0, "fork_child_first": rng.randrange(2) == 0, "short_recv": rng.randrange(3) == 0}}
 
 
-def judge_clients(res, case, clients, specs, stream_first_read, term_time, gt, fam, ctxf):
+def track_recvs(sim):
+    """client name -> times at which a server process read bytes of that client's connection."""
+    recvs = {}
+
+    def obs(s, actor, kind, detail):
+        if kind == "recv" and isinstance(detail, tuple) and isinstance(detail[0], str) and detail[0].startswith("srv<-"):
+            recvs.setdefault(detail[0][5:], []).append(s.now)
+    sim.observers.append(obs)
+    return recvs
+
+
+def judge_second_request(res, case, c, spec, recvs, term_time, gt, fam, ctxf):
+    """Phase ka_second_partial: the second request of a kept-alive connection is 'started reading' as soon as a worker read one byte of it."""
+    idx = [i for i, (t, what, d) in enumerate(c.log) if what == "response"]
+    if not idx or not c.responses or c.responses[0]["status"] != 200 or not c.responses[0]["complete"]:
+        return
+    sends = [t for t, what, d in c.log[idx[0] + 1:] if what == "sent"]
+    if len(sends) < 2:
+        return            # the server closed the connection before the second request was on its way (no keep-alive): nothing to demand
+    waits = [op[1] for op in spec["ops"] if op[0] == "wait"][1:]
+    if sum(waits) >= case.get("keepalive", 2) - 0.15:
+        return            # the keep-alive time bounds the idle gap (and, for the async workers, the time a head may take)
+    # (the first request was read at or before the instant its response arrived: only reads after the first bytes of the second were sent count)
+    read = [t for t in recvs.get(c.name, []) if sends[0] - 1e-9 <= t <= term_time + 1e-9 and t > c.log[idx[0]][0] + 1e-9]
+    if not read:
+        return
+    res.probes["term_in_phase_ka_second_partial"] += 1
+    if sends[-1] <= term_time + gt - 0.3:
+        got = c.responses[1] if len(c.responses) > 1 else None
+        if not (got and got["status"] == 200 and got["complete"]):
+            res.violate("C04:%s:%s:in-flight-request-cut:ka_second_partial" % (fam, case.get("kind", "stub")),
+                        "client %s: a worker had read the first bytes of its SECOND request (kept-alive connection) at t=%.2f, TERM was handled "
+                        "at t=%.2f, the head completed at t=%.2f (fits graceful_timeout=%s), yet the response is %s; client log=%r; %s"
+                        % (c.name, read[0], term_time, sends[-1], gt,
+                           ("status=%r complete=%r eof=%r rst=%r" % (got["status"], got["complete"], got.get("eof"), got.get("rst"))) if got else "absent",
+                           c.log[-7:], ctxf()))
+
+
+def judge_clients(res, case, clients, specs, recvs, term_time, gt, fam, ctxf):
     """The in-flight clause: every request whose first byte had been read when TERM was handled is answered in full if it fits."""
     sigkind = case["sig"]
     for c, spec in zip(clients, specs):
         st = c.stream
         if st is None or term_time is None:
+            continue
+        if spec["phase"] == "ka_second_partial":
+            if sigkind == "TERM" and recvs is not None:
+                judge_second_request(res, case, c, spec, recvs, term_time, gt, fam, ctxf)
             continue
         fr = getattr(st.peer, "first_read", None) if st.peer is not None else None
         if fr is None or fr > term_time + 1e-9:
@@ -193,7 +245,8 @@ def run_worker(case, choices):
     kind = case["kind"]
     two = case.get("binds", 1) == 2
     w = W.WorkerWorld(sim, kind, {"timeout": 30, "graceful_timeout": gt, "keepalive": case["keepalive"], "threads": case["threads"],
-                                  "worker_connections": 10}, extra_addrs=[("127.0.0.1", 8001)] if two else ())
+                                  "worker_connections": case.get("wconn", 10)}, extra_addrs=[("127.0.0.1", 8001)] if two else ())
+    recvs = track_recvs(sim)
     p = w.start_worker()
     # with two listeners the first client talks to the first one and the others to the second (one listener may stay idle)
     clients = [w.add_client("c%d" % i, c["ops"], addr=w.addrs[min(i, len(w.addrs) - 1)] if two else None)
@@ -228,7 +281,7 @@ def run_worker(case, choices):
             res.violate("C04:worker:%s:exception-escaped" % kind, "an exception escaped %s: %s; %s" % (name, tb[-400:], ctx()))
         if w.boot_error and "SystemExit" not in w.boot_error:
             res.violate("C04:worker:%s:run-raised" % kind, "run() raised: %s; %s" % (w.boot_error[-400:], ctx()))
-        judge_clients(res, case, clients, case["clients"], None, term_time, gt, "worker", ctx)
+        judge_clients(res, case, clients, case["clients"], recvs, term_time, gt, "worker", ctx)
         if term_time is not None:
             # exit bound
             fins = []
@@ -301,11 +354,12 @@ def run_master(case, choices):
         w.addr = "/run/g.sock"
     clients = []
     if fam == "full":
-        cfg.update({"threads": case["threads"], "keepalive": case["keepalive"], "worker_connections": 10})
+        cfg.update({"threads": case["threads"], "keepalive": case["keepalive"], "worker_connections": case.get("wconn", 10)})
         w.cfgsrc.update(cfg)
         w.use_real_workers(case["kind"])
         clients = [w.add_client("c%d" % i, c["ops"], addr=("127.0.0.1", 8001) if two and i > 0 else None)
                    for i, c in enumerate(case["clients"])]
+    recvs = track_recvs(sim)
     m = w.start_master()
     signum = int(SIG[case["sig"]])
     state = {"sent": None, "worker_term": {}}
@@ -396,7 +450,7 @@ def run_master(case, choices):
             if fam == "full" and case["sig"] == "TERM":
                 # per-client clause against the TERM time of the worker that served it (workers get TERM from the master's stop())
                 # the graceful window runs from the moment the master handles TERM (Arbiter.stop computes its limit then)
-                judge_clients(res, case, clients, case["clients"], None, t_sig, gt, "full", ctx)
+                judge_clients(res, case, clients, case["clients"], recvs, t_sig, gt, "full", ctx)
         for name, tb in sim.escaped:
             res.violate("C04:%s:exception-escaped:%s" % (fam, name.rstrip("0123456789")), "an exception escaped %s: %s; %s" % (name, tb[-400:], ctx()))
         res.nontrivial = state["sent"] is not None
